@@ -180,6 +180,57 @@ def run(rep, rng, tier):
             sub = np.array(s1, dtype=float).T[idx]
             add('KRows %s %s %s %s' % (natlist(range(len(idx))), q(0.0), qmat(sub), qmat(np.array(s2, dtype=float).T)),
                 '%s_response_spectra[rows, large batch]' % nm, args)
+    # ---- two batches in a row that share xi, dt, the number of periods and the first and last period but differ inside:
+    # every row of the second batch must be what a call with that period alone gives (no state kept between calls)
+    for k in range(6 * N):
+        a, dt, periods, xi = setup()
+        body = [p for p in periods if p != 0]
+        if len(body) < 3:
+            body = sorted(body + [dt * rng.uniform(8, 60) for _ in range(3 - len(body))])
+        first = sorted(body)
+        second = [first[0]] + sorted(rng.uniform(first[0], first[-1]) for _ in first[1:-1]) + [first[-1]]
+        if k % 2:
+            second = [first[0]] + list(reversed(first[1:-1])) + [first[-1]]     # a permutation that keeps the end points
+            if second == first:
+                continue
+        args = {'dt': dt, 'xi': xi, 'first_batch': first, 'periods': second, 'a': list(map(float, a))}
+        r0, r1 = guarded(rs, a, dt, first, xi), guarded(rs, a, dt, second, xi)
+        if isinstance(r0, ImplError) or isinstance(r1, ImplError):
+            viol('response_series[rows, second batch]', args, r0 if isinstance(r0, ImplError) else r1)
+            continue
+        for jj in range(1, len(second) - 1):
+            r2 = guarded(rs, a, dt, [second[jj]], xi)
+            if isinstance(r2, ImplError):
+                viol('response_series[rows, second batch]', args, r2)
+                continue
+            for j, nm in enumerate(names[:2]):
+                add('KRows %s %s %s %s' % (natlist([jj]), q(0.0), qmat(mats(r1)[j]), qmat(mats(r2)[j])),
+                    'response_series[rows, second batch with the same end periods:%s]' % nm, dict(args, sub_periods=[second[jj]]), nz=bool(np.any(a != 0)))
+        for fn, nm in ((sdof.pseudo_response_spectra, 'pseudo'), (sdof.true_response_spectra, 'true')):
+            s0, s1 = guarded(fn, a, dt, np.array(first), xi), guarded(fn, a, dt, np.array(second), xi)
+            s2 = guarded(fn, a, dt, np.array(second[1:-1]), xi)
+            if isinstance(s0, ImplError) or isinstance(s1, ImplError) or isinstance(s2, ImplError):
+                continue
+            add('KRows %s %s %s %s' % (natlist(range(1, len(second) - 1)), q(0.0), qmat(np.array(s1, dtype=float).T), qmat(np.array(s2, dtype=float).T)),
+                '%s_response_spectra[rows, second batch with the same end periods]' % nm, dict(args, sub_periods=second[1:-1]), nz=bool(np.any(a != 0)))
+    # ---- shift invariance of the spectra on a record longer than 2^15 samples whose strong motion comes late
+    for k in range(1 * N):
+        n = rng.randint(33500, 36000)
+        tt = np.arange(n) * 0.01
+        a = np.exp(-((tt - 0.97 * tt[-1]) / 4.0) ** 2) * (np.sin(2 * np.pi * rng.uniform(0.8, 2.5) * tt) + 0.4 * np.sin(2 * np.pi * rng.uniform(3.0, 7.0) * tt + 0.5))
+        a[0] = 0.0
+        dt, xi = 0.01, rng.choice([0.02, 0.05, 0.2])
+        periods = sorted(rng.uniform(0.1, 2.0) for _ in range(3))
+        kk = rng.choice([1, 7, 100])
+        al = np.concatenate([np.zeros(kk), a])
+        args = {'dt': dt, 'xi': xi, 'periods': periods, 'k': kk, 'record': 'exp(-((t - 0.97 t_end)/4)^2) * two sines, n = %d' % n, 'values': list(map(float, a))}
+        for fn, nm in ((sdof.pseudo_response_spectra, 'pseudo'), (sdof.true_response_spectra, 'true')):
+            s1, s2 = guarded(fn, a, dt, np.array(periods), xi), guarded(fn, al, dt, np.array(periods), xi)
+            if isinstance(s1, ImplError) or isinstance(s2, ImplError):
+                viol('%s_response_spectra[shift, long record]' % nm, args, s1 if isinstance(s1, ImplError) else s2)
+                continue
+            add('KRows %s %s %s %s' % (natlist(range(len(periods))), q(0.0), qmat(np.array(s1, dtype=float).T), qmat(np.array(s2, dtype=float).T)),
+                '%s_response_spectra[shift, record longer than 2^15 samples]' % nm, args)
     # ---- refinement
     for k in range(20 * N):
         n = gens.small_len(rng, 2, 60)
